@@ -96,6 +96,10 @@ def plan(tier, seed):
         for o in (False, True):
             cases.append({"src": fn, "srcfmt": None, "explicit_in": False, "target": t, "missing_outdir": True,
                           "opts": {"c": False, "m": m, "i": False, "o": o}})
+    # the output name is the standard-output device (conversion inside a pipeline): the stream carries the file and nothing else
+    for fn, t, m in (("water.xyz", "pdb", False), ("water.xyz", "xyz", False), ("water_trajectory.xyz", "sdf", True), ("caffeine.mol2", "mol2", False)):
+        for dev in ("/dev/stdout", "/dev/fd/1"):
+            cases.append({"stdout": dev, "src": fn, "target": t, "many": m})
     # input names containing characters that shells and glob() treat as patterns, next to a file the pattern would match: the file
     # NAMED is converted, as by the API
     for name, sibling in (("scan[3].xyz", "scan3.xyz"), ("[Zn(H2O)6].xyz", "Z.xyz"), ("frame?.xyz", "frame1.xyz"), ("all*.xyz", "all_frames.xyz")):
@@ -235,9 +239,42 @@ def case_reuse(case):
             "sample": {"cmd": f"convert(scratch.xyz, out.{case['target']}) x {len(case['reuse'])} with the content replaced in between"}}
 
 
+def case_stdout(case):
+    """python -m iodata <input> /dev/stdout -o <fmt> with stdout captured, against the file the API calls write."""
+    root = tempfile.mkdtemp(prefix="vf_c18o_")
+    viols = []
+    counters = {"cli_runs": 1, "api_runs": 1, "stdout_cases": 1, "byte_comparisons": 0}
+    try:
+        src = os.path.join(bootstrap.DATA_DIR, case["src"])
+        args = ["-o", case["target"]] + (["-m"] if case["many"] else [])
+        env = dict(os.environ, PYTHONPATH=bootstrap.REPO, PYTHONHASHSEED="0")
+        r = subprocess.run([sys.executable, "-m", "iodata", src, case["stdout"], *args], capture_output=True, timeout=600, env=env, cwd=root)
+        out_api = os.path.join(root, "api_out")
+        api_outcome, api_exc = api_run(src, None, out_api, case["target"], case["many"], False)
+        tag = f"{case['src']} -> {case['stdout']} {' '.join(args)}"
+        if r.returncode == 0 and api_outcome == "ok":
+            counters["byte_comparisons"] += 1
+            want = open(out_api, "rb").read()
+            if r.stdout != want:
+                viols.append(_v("cli-output-differs", f"{tag}: CLI exit 0 but the stream holds {len(r.stdout)} bytes, the API writes {len(want)} "
+                                f"(first difference near byte {next((i for i, (a, b) in enumerate(zip(r.stdout, want)) if a != b), min(len(r.stdout), len(want)))})"))
+        elif r.returncode == 0:
+            viols.append(_v("cli-success-api-failure", f"{tag}: CLI exit 0 but the API calls raise {api_outcome}: {api_exc}"))
+        elif api_outcome == "ok":
+            # a device the platform does not let the process reopen is an environment limitation, not a verdict
+            counters["stdout_device_unusable"] = 1
+        feat = f"stdout:{case['target']}:{'m' if case['many'] else ''}:cli={r.returncode}:api={api_outcome}"
+    finally:
+        shutil.rmtree(root, ignore_errors=True)
+    return {"status": "violation" if viols else "ok", "violations": viols, "features": [feat], "counters": counters,
+            "sample": {"cmd": f"python -m iodata {case['src']} {case['stdout']} {' '.join(args)}", "exit": r.returncode}}
+
+
 def run_case(case):
     if "reuse" in case:
         return case_reuse(case)
+    if "stdout" in case:
+        return case_stdout(case)
     import iodata
     from iodata.__main__ import convert
 
